@@ -18,7 +18,7 @@ EXTENDS Naturals, Sequences, FiniteSets, TLC
 CONSTANTS
   Batches,        \* set of batch ids (one API call each)
   Kind,           \* [Batches -> {"rows","empty","bad","force"}]
-  Chan,           \* [Batches -> {"nil","buf","unbuf","aband"}]
+  Chan,           \* [Batches -> {"nil","buf","unbuf","aband","late"}]
   Prev,           \* [Batches -> SUBSET Batches]: calls that returned before this call starts (program order)
   IBS,            \* IngestBufferSize
   MBR,            \* MaxBufferedRows (each "rows" batch carries one row)
@@ -31,6 +31,8 @@ CONSTANTS
                   \*   deadline return; FALSE (original): cancellation only via context.AfterFunc, which may run late
   FixStopUnblocks,\* TRUE (repaired code): Stop closes a "stopping" channel before waiting for the state lock; callers
                   \*   blocked on a full ingest buffer return ErrEngineStopped; FALSE (original): they wait for room
+  FixStopExpiry,  \* TRUE (repaired code): Stop re-checks its context when the workers have exited and reports the
+                  \*   deadline if it expired meanwhile; FALSE (original): both select cases ready, either may be taken
   FixStopDrains   \* TRUE (repaired code): Stop on a never-started engine runs the workers so accepted batches are
                   \*   drained; FALSE (original): nobody drains ingestChan
 
@@ -48,7 +50,7 @@ VARIABLES
   \* stores
   files, meta, nfile, faults, wedges,
   \* done channels and observables
-  answers, accSeq, creates, lateCreates,
+  answers, accSeq, creates, lateCreates, lateOn,
   \* Stop caller and its context
   spc, deadline, afRan,
   \* last action (scenario export only; hidden by the VIEW)
@@ -57,12 +59,12 @@ VARIABLES
 vars == << readers, wWaiting, started, stopped, bctx, fctx, cpc, cres, ich, fch,
            apc, aret, buf, waiters, areq, fpc, fret, freq, fstage, fidx, fval,
            ffile, flate, wedged, files, meta, nfile, faults, wedges, answers,
-           accSeq, creates, lateCreates, spc, deadline, afRan, act >>
+           accSeq, creates, lateCreates, lateOn, spc, deadline, afRan, act >>
 
 view == << readers, wWaiting, started, stopped, bctx, fctx, cpc, cres, ich, fch,
            apc, aret, buf, waiters, areq, fpc, fret, freq, fstage, fidx, fval,
            ffile, flate, wedged, files, meta, nfile, faults, wedges, answers,
-           accSeq, creates, lateCreates, spc, deadline, afRan >>
+           accSeq, creates, lateCreates, lateOn, spc, deadline, afRan >>
 
 NoReq == [rows |-> {}, w |-> <<>>]
 Files == 1..(Cardinality(Batches) + 1)
@@ -77,7 +79,7 @@ Init ==
   /\ fidx = 0 /\ fval = "nil" /\ ffile = 0 /\ flate = FALSE /\ wedged = FALSE
   /\ files = [f \in Files |-> [st |-> "none", rows |-> {}]] /\ meta = {} /\ nfile = 0
   /\ faults = MaxFaults /\ wedges = MaxWedges
-  /\ answers = [b \in Batches |-> <<>>] /\ accSeq = <<>> /\ creates = 0 /\ lateCreates = 0
+  /\ answers = [b \in Batches |-> <<>>] /\ accSeq = <<>> /\ creates = 0 /\ lateCreates = 0 /\ lateOn = {}
   /\ spc = "none" /\ deadline = IF StopMode = "deadline" THEN "pending" ELSE "none"
   /\ afRan = FALSE
   /\ act = [n |-> "init", b |-> 0]
@@ -87,11 +89,14 @@ Act(n, b) == act' = [n |-> n, b |-> b]
 (***************************************************************************)
 (* Done channels.  "buf" has capacity 2 in the model and in the harness    *)
 (* so that a second answer is observable instead of wedging the sender;    *)
-(* "unbuf" has a receiver permanently parked; "aband" is never received.   *)
+(* "unbuf" has a receiver permanently parked; "aband" is never received;    *)
+(* "late" is unbuffered and its receiver starts receiving at some later     *)
+(* moment of the caller's choosing (RecvStart).                             *)
 (***************************************************************************)
 CanSend(b) == \/ Chan[b] = "unbuf"
+              \/ Chan[b] = "late" /\ b \in lateOn
               \/ Chan[b] = "buf" /\ Len(answers[b]) < 2
-Receivable(b) == Chan[b] \in {"buf", "unbuf"}
+Receivable(b) == Chan[b] \in {"buf", "unbuf", "late"}
 
 \* sendWithContext: a ready channel always receives the value; a blocked send
 \* is abandoned once the flush context is canceled.
@@ -106,7 +111,7 @@ RECURSIVE SendAll(_, _, _)
 SendAll(ans, ws, v) ==
   IF ws = <<>> THEN ans
   ELSE LET b == Head(ws)
-           ok == Chan[b] = "unbuf" \/ (Chan[b] = "buf" /\ Len(ans[b]) < 2)
+           ok == Chan[b] = "unbuf" \/ (Chan[b] = "late" /\ b \in lateOn) \/ (Chan[b] = "buf" /\ Len(ans[b]) < 2)
        IN SendAll(IF ok THEN [ans EXCEPT ![b] = Append(@, v)] ELSE ans, Tail(ws), v)
 
 (***************************************************************************)
@@ -125,7 +130,7 @@ ClientCheck(b) ==
   /\ Act("ingest.checked", b)
   /\ UNCHANGED << wWaiting, started, stopped, bctx, fctx, ich, fch, apc, aret, buf, waiters, areq,
                   fpc, fret, freq, fstage, fidx, fval, ffile, flate, wedged, files, meta, nfile,
-                  faults, wedges, answers, accSeq, creates, lateCreates, spc, deadline, afRan >>
+                  faults, wedges, answers, accSeq, creates, lateCreates, lateOn, spc, deadline, afRan >>
 
 \* the channel send lands (still under the read lock)
 ClientSend(b) ==
@@ -137,7 +142,7 @@ ClientSend(b) ==
   /\ Act("ingest.sent", b)
   /\ UNCHANGED << wWaiting, started, stopped, bctx, fctx, fch, apc, aret, buf, waiters, areq,
                   fpc, fret, freq, fstage, fidx, fval, ffile, flate, wedged, files, meta, nfile,
-                  faults, wedges, answers, creates, lateCreates, spc, deadline, afRan >>
+                  faults, wedges, answers, creates, lateCreates, lateOn, spc, deadline, afRan >>
 
 \* the caller was waiting for room in the ingest buffer when Stop began
 ClientStopping(b) ==
@@ -147,7 +152,7 @@ ClientStopping(b) ==
   /\ Act("ingest.stopping", b)
   /\ UNCHANGED << wWaiting, started, stopped, bctx, fctx, ich, fch, apc, aret, buf, waiters, areq,
                   fpc, fret, freq, fstage, fidx, fval, ffile, flate, wedged, files, meta, nfile,
-                  faults, wedges, answers, accSeq, creates, lateCreates, spc, deadline, afRan >>
+                  faults, wedges, answers, accSeq, creates, lateCreates, lateOn, spc, deadline, afRan >>
 
 \* Flush() returns what its private buffered channel received
 FlushReturn(b) ==
@@ -157,7 +162,7 @@ FlushReturn(b) ==
   /\ Act("flush.ret", b)
   /\ UNCHANGED << readers, wWaiting, started, stopped, bctx, fctx, ich, fch, apc, aret, buf, waiters,
                   areq, fpc, fret, freq, fstage, fidx, fval, ffile, flate, wedged, files, meta, nfile,
-                  faults, wedges, answers, accSeq, creates, lateCreates, spc, deadline, afRan >>
+                  faults, wedges, answers, accSeq, creates, lateCreates, lateOn, spc, deadline, afRan >>
 
 \* Start: write lock, idempotent, no-op after Stop
 StartCall ==
@@ -166,7 +171,7 @@ StartCall ==
   /\ Act("start.spawn", 0)
   /\ UNCHANGED << readers, wWaiting, stopped, bctx, fctx, cpc, cres, ich, fch, aret, buf, waiters, areq,
                   fret, freq, fstage, fidx, fval, ffile, flate, wedged, files, meta, nfile,
-                  faults, wedges, answers, accSeq, creates, lateCreates, spc, deadline, afRan >>
+                  faults, wedges, answers, accSeq, creates, lateCreates, lateOn, spc, deadline, afRan >>
 
 (***************************************************************************)
 (* Ingest actor (ingestWorker / processIngestRequest / flushBufferedData / *)
@@ -203,7 +208,7 @@ ActorRecv ==
   /\ Act("actor.recv", Head(ich))
   /\ UNCHANGED << readers, wWaiting, started, stopped, bctx, fctx, cpc, cres, fch,
                   fpc, fret, freq, fstage, fidx, fval, ffile, flate, wedged, files, meta, nfile,
-                  faults, wedges, accSeq, creates, lateCreates, spc, deadline, afRan >>
+                  faults, wedges, accSeq, creates, lateCreates, lateOn, spc, deadline, afRan >>
 
 \* time-based flush (MaxBufferedTime elapsed at a ticker fire)
 ActorTick ==
@@ -212,7 +217,7 @@ ActorTick ==
   /\ Act("actor.tick", 0)
   /\ UNCHANGED << readers, wWaiting, started, stopped, bctx, fctx, cpc, cres, ich, fch,
                   fpc, fret, freq, fstage, fidx, fval, ffile, flate, wedged, files, meta, nfile,
-                  faults, wedges, answers, accSeq, creates, lateCreates, spc, deadline, afRan >>
+                  faults, wedges, answers, accSeq, creates, lateCreates, lateOn, spc, deadline, afRan >>
 
 ActorCtxDone ==
   /\ apc = "idle" /\ bctx
@@ -220,7 +225,7 @@ ActorCtxDone ==
   /\ Act("actor.ctxdone", 0)
   /\ UNCHANGED << readers, wWaiting, started, stopped, bctx, fctx, cpc, cres, ich, fch, aret, buf,
                   waiters, areq, fpc, fret, freq, fstage, fidx, fval, ffile, flate, wedged, files,
-                  meta, nfile, faults, wedges, answers, accSeq, creates, lateCreates, spc, deadline, afRan >>
+                  meta, nfile, faults, wedges, answers, accSeq, creates, lateCreates, lateOn, spc, deadline, afRan >>
 
 ActorDrainRecv ==
   /\ apc = "drain" /\ ich # <<>>
@@ -228,7 +233,7 @@ ActorDrainRecv ==
   /\ Act("actor.recv", Head(ich))
   /\ UNCHANGED << readers, wWaiting, started, stopped, bctx, fctx, cpc, cres, fch,
                   fpc, fret, freq, fstage, fidx, fval, ffile, flate, wedged, files, meta, nfile,
-                  faults, wedges, accSeq, creates, lateCreates, spc, deadline, afRan >>
+                  faults, wedges, accSeq, creates, lateCreates, lateOn, spc, deadline, afRan >>
 
 ActorFinalFlush ==
   /\ apc = "drain" /\ ich = <<>>
@@ -236,7 +241,7 @@ ActorFinalFlush ==
   /\ Act("actor.finalflush", 0)
   /\ UNCHANGED << readers, wWaiting, started, stopped, bctx, fctx, cpc, cres, ich, fch,
                   fpc, fret, freq, fstage, fidx, fval, ffile, flate, wedged, files, meta, nfile,
-                  faults, wedges, answers, accSeq, creates, lateCreates, spc, deadline, afRan >>
+                  faults, wedges, answers, accSeq, creates, lateCreates, lateOn, spc, deadline, afRan >>
 
 \* sendOptionalWithContext of the nil (empty batch) or the error (rejected batch)
 ActorDirectAck ==
@@ -246,7 +251,7 @@ ActorDirectAck ==
   /\ Act(IF Kind[areq.w[1]] = "empty" THEN "actor.ack_empty" ELSE "actor.ack_reject", areq.w[1])
   /\ UNCHANGED << readers, wWaiting, started, stopped, bctx, fctx, cpc, cres, ich, fch, aret, buf,
                   waiters, fpc, fret, freq, fstage, fidx, fval, ffile, flate, wedged, files, meta,
-                  nfile, faults, wedges, accSeq, creates, lateCreates, spc, deadline, afRan >>
+                  nfile, faults, wedges, accSeq, creates, lateCreates, lateOn, spc, deadline, afRan >>
 
 ActorEnqueued ==
   /\ apc = "enq" /\ Len(fch) < 1
@@ -254,7 +259,7 @@ ActorEnqueued ==
   /\ Act("actor.enqueued", 0)
   /\ UNCHANGED << readers, wWaiting, started, stopped, bctx, fctx, cpc, cres, ich, aret, buf, waiters,
                   fpc, fret, freq, fstage, fidx, fval, ffile, flate, wedged, files, meta, nfile,
-                  faults, wedges, answers, accSeq, creates, lateCreates, spc, deadline, afRan >>
+                  faults, wedges, answers, accSeq, creates, lateCreates, lateOn, spc, deadline, afRan >>
 
 ActorEnqueueAborted ==
   /\ apc = "enq" /\ fctx
@@ -263,7 +268,7 @@ ActorEnqueueAborted ==
   /\ Act("actor.enqueue_aborted", 0)
   /\ UNCHANGED << readers, wWaiting, started, stopped, bctx, fctx, cpc, cres, ich, fch, aret, buf,
                   waiters, fpc, fret, freq, fstage, fidx, fval, ffile, flate, wedged, files, meta,
-                  nfile, faults, wedges, accSeq, creates, lateCreates, spc, deadline, afRan >>
+                  nfile, faults, wedges, accSeq, creates, lateCreates, lateOn, spc, deadline, afRan >>
 
 (***************************************************************************)
 (* Flush worker (flushWorker / handleFlush / abortFileWriter)              *)
@@ -276,7 +281,7 @@ FlusherTake(from) ==
   /\ Act("flusher.recv", 0)
   /\ UNCHANGED << readers, wWaiting, started, stopped, bctx, fctx, cpc, cres, ich, apc, aret, buf,
                   waiters, areq, fval, ffile, wedged, files, meta, nfile, faults, wedges, answers,
-                  accSeq, creates, lateCreates, spc, deadline, afRan >>
+                  accSeq, creates, lateCreates, lateOn, spc, deadline, afRan >>
 
 FlusherRecv == FlusherTake("idle") \/ FlusherTake("shut") \/ FlusherTake("drainall")
 
@@ -285,21 +290,21 @@ FlusherShutdown ==
   /\ Act("flusher.shutdown", 0)
   /\ UNCHANGED << readers, wWaiting, started, stopped, bctx, fctx, cpc, cres, ich, fch, apc, aret, buf,
                   waiters, areq, fret, freq, fstage, fidx, fval, ffile, flate, wedged, files, meta,
-                  nfile, faults, wedges, answers, accSeq, creates, lateCreates, spc, deadline, afRan >>
+                  nfile, faults, wedges, answers, accSeq, creates, lateCreates, lateOn, spc, deadline, afRan >>
 
 FlusherIngestDone ==
   /\ fpc = "shut" /\ apc = "done" /\ fpc' = "drainall"
   /\ Act("flusher.ingestdone", 0)
   /\ UNCHANGED << readers, wWaiting, started, stopped, bctx, fctx, cpc, cres, ich, fch, apc, aret, buf,
                   waiters, areq, fret, freq, fstage, fidx, fval, ffile, flate, wedged, files, meta,
-                  nfile, faults, wedges, answers, accSeq, creates, lateCreates, spc, deadline, afRan >>
+                  nfile, faults, wedges, answers, accSeq, creates, lateCreates, lateOn, spc, deadline, afRan >>
 
 FlusherExit ==
   /\ fpc = "drainall" /\ fch = <<>> /\ fpc' = "done"
   /\ Act("flusher.exit", 0)
   /\ UNCHANGED << readers, wWaiting, started, stopped, bctx, fctx, cpc, cres, ich, fch, apc, aret, buf,
                   waiters, areq, fret, freq, fstage, fidx, fval, ffile, flate, wedged, files, meta,
-                  nfile, faults, wedges, answers, accSeq, creates, lateCreates, spc, deadline, afRan >>
+                  nfile, faults, wedges, answers, accSeq, creates, lateCreates, lateOn, spc, deadline, afRan >>
 
 FUnch == << readers, wWaiting, started, stopped, bctx, fctx, cpc, cres, ich, fch, apc, aret, buf,
             waiters, areq, fret, freq, flate, accSeq, spc, deadline, afRan >>
@@ -310,7 +315,7 @@ FlushCheck ==
   /\ IF fctx THEN fstage' = "ack" /\ fval' = "err" /\ Act("flush.abandoned", 0)
      ELSE IF freq.rows = {} THEN fstage' = "ack" /\ fval' = "nil" /\ Act("flush.ackonly", 0)
      ELSE fstage' = "create" /\ fval' = "nil" /\ Act("flush.begin", 0)
-  /\ UNCHANGED << fpc, fidx, ffile, wedged, files, meta, nfile, faults, wedges, answers, creates, lateCreates >>
+  /\ UNCHANGED << fpc, fidx, ffile, wedged, files, meta, nfile, faults, wedges, answers, creates, lateCreates, lateOn >>
   /\ UNCHANGED FUnch
 
 \* a store call may wedge (ctx-ignoring store) before it takes effect
@@ -318,19 +323,20 @@ StoreWedge ==
   /\ fpc = "work" /\ fstage \in {"create", "close", "update"} /\ ~wedged /\ wedges > 0
   /\ wedged' = TRUE /\ wedges' = wedges - 1
   /\ Act("store.wedge", 0)
-  /\ UNCHANGED << fpc, fstage, fidx, fval, ffile, files, meta, nfile, faults, answers, creates, lateCreates >>
+  /\ UNCHANGED << fpc, fstage, fidx, fval, ffile, files, meta, nfile, faults, answers, creates, lateCreates, lateOn >>
   /\ UNCHANGED FUnch
 
 StoreUnwedge ==
   /\ wedged /\ wedged' = FALSE
   /\ Act("store.unwedge", 0)
-  /\ UNCHANGED << fpc, fstage, fidx, fval, ffile, files, meta, nfile, faults, wedges, answers, creates, lateCreates >>
+  /\ UNCHANGED << fpc, fstage, fidx, fval, ffile, files, meta, nfile, faults, wedges, answers, creates, lateCreates, lateOn >>
   /\ UNCHANGED FUnch
 
 FlushCreate(ok) ==
   /\ fpc = "work" /\ fstage = "create" /\ ~wedged
   /\ creates' = creates + 1
   /\ lateCreates' = IF flate THEN lateCreates + 1 ELSE lateCreates
+  /\ UNCHANGED lateOn
   /\ IF ok
        THEN /\ nfile' = nfile + 1 /\ ffile' = nfile + 1
             /\ files' = [files EXCEPT ![nfile + 1] = [st |-> "tmp", rows |-> freq.rows]]
@@ -353,7 +359,7 @@ FlushClose(ok) ==
             /\ files' = [files EXCEPT ![ffile].st = "gone"]
             /\ fstage' = "ack" /\ fval' = "err"
             /\ Act("store.close.err", 0)
-  /\ UNCHANGED << fpc, fidx, ffile, wedged, meta, nfile, wedges, answers, creates, lateCreates >>
+  /\ UNCHANGED << fpc, fidx, ffile, wedged, meta, nfile, wedges, answers, creates, lateCreates, lateOn >>
   /\ UNCHANGED FUnch
 
 FlushUpdate(ok) ==
@@ -366,7 +372,7 @@ FlushUpdate(ok) ==
             /\ files' = [files EXCEPT ![ffile].st = "gone"]
             /\ fstage' = "ack" /\ fval' = "err" /\ UNCHANGED meta
             /\ Act("store.update.err", 0)
-  /\ UNCHANGED << fpc, fidx, ffile, wedged, nfile, wedges, answers, creates, lateCreates >>
+  /\ UNCHANGED << fpc, fidx, ffile, wedged, nfile, wedges, answers, creates, lateCreates, lateOn >>
   /\ UNCHANGED FUnch
 
 \* one blocking send per waiter, in order
@@ -379,7 +385,7 @@ FlushAck ==
             /\ answers' = SendEffect(freq.w[fidx], fval)
             /\ fidx' = fidx + 1 /\ UNCHANGED << fpc, fstage >>
             /\ Act("flush.ack", freq.w[fidx])
-  /\ UNCHANGED << fval, ffile, wedged, files, meta, nfile, faults, wedges, creates, lateCreates >>
+  /\ UNCHANGED << fval, ffile, wedged, files, meta, nfile, faults, wedges, creates, lateCreates, lateOn >>
   /\ UNCHANGED FUnch
 
 (***************************************************************************)
@@ -387,7 +393,7 @@ FlushAck ==
 (***************************************************************************)
 SUnch == << started, cpc, cres, ich, fch, apc, aret, buf, waiters, areq, fpc, fret, freq, fstage,
             fidx, fval, ffile, flate, wedged, files, meta, nfile, faults, wedges, accSeq,
-            creates, lateCreates >>
+            creates, lateCreates, lateOn >>
 
 StopArm ==
   /\ StopMode # "none" /\ spc = "none" /\ spc' = "armed"
@@ -410,7 +416,7 @@ StopFlag ==
        THEN /\ started' = TRUE /\ apc' = "idle" /\ fpc' = "idle"
             /\ UNCHANGED << cpc, cres, ich, fch, aret, buf, waiters, areq, fret, freq, fstage,
                             fidx, fval, ffile, flate, wedged, files, meta, nfile, faults, wedges,
-                            accSeq, creates, lateCreates >>
+                            accSeq, creates, lateCreates, lateOn >>
        ELSE UNCHANGED SUnch
   /\ Act("stop.flagged", 0)
   /\ UNCHANGED << readers, bctx, fctx, answers, deadline, afRan >>
@@ -423,7 +429,7 @@ StopCancel ==
 WorkersDone == (apc \in {"done", "notstarted"}) /\ (fpc \in {"done", "notstarted"})
 
 StopRetNil ==
-  /\ spc = "waiting" /\ WorkersDone /\ spc' = "ret_nil"
+  /\ spc = "waiting" /\ WorkersDone /\ (FixStopExpiry => deadline # "fired") /\ spc' = "ret_nil"
   /\ Act("stop.ret_nil", 0)
   /\ UNCHANGED << readers, wWaiting, stopped, bctx, fctx, answers, deadline, afRan >> /\ UNCHANGED SUnch
 
@@ -453,7 +459,17 @@ AfterFuncRun ==
   /\ Act("ctx.afterfunc", 0)
   /\ UNCHANGED << readers, wWaiting, stopped, bctx, answers, spc, deadline >> /\ UNCHANGED SUnch
 
+\* the caller of a "late" channel starts receiving
+RecvStart(b) ==
+  /\ Chan[b] = "late" /\ b \notin lateOn /\ cpc[b] # "idle"
+  /\ lateOn' = lateOn \cup {b}
+  /\ Act("recvstart", b)
+  /\ UNCHANGED << readers, wWaiting, started, stopped, bctx, fctx, cpc, cres, ich, fch, apc, aret, buf, waiters,
+                  areq, fpc, fret, freq, fstage, fidx, fval, ffile, flate, wedged, files, meta, nfile,
+                  faults, wedges, answers, accSeq, creates, lateCreates, spc, deadline, afRan >>
+
 Next ==
+  \/ \E b \in Batches : RecvStart(b)
   \/ \E b \in Batches : ClientCheck(b) \/ ClientSend(b) \/ ClientStopping(b) \/ FlushReturn(b)
   \/ StartCall
   \/ ActorRecv \/ ActorTick \/ ActorCtxDone \/ ActorDrainRecv \/ ActorFinalFlush
@@ -471,6 +487,7 @@ Spec == Init /\ [][Next]_vars
 \* progress; failures, wedges, the deadline and Stop itself are not forced,
 \* but a wedged call is eventually released.
 EngineStep ==
+  \/ \E b \in Batches : RecvStart(b)
   \/ \E b \in Batches : ClientCheck(b) \/ ClientSend(b) \/ ClientStopping(b) \/ FlushReturn(b)
   \/ StartCall
   \/ ActorRecv \/ ActorTick \/ ActorCtxDone \/ ActorDrainRecv \/ ActorFinalFlush
@@ -524,8 +541,11 @@ AckOrder == [][AckOrderStep]_vars
 RefuseAfterStop == [][stopped => accSeq' = accSeq \/ \E b \in readers : accSeq' = Append(accSeq, b)]_vars
 NoLateStoreWork == lateCreates = 0
 Terminal == WorkersDone /\ spc \in {"ret_nil", "ret_deadline"} /\ \A b \in Batches : cpc[b] \in {"done", "idle"}
+\* a "late" channel whose receiver is not there cannot receive: after a deadline
+\* return only channels that can take a value at any time are owed an answer
 WaitersToldAtEnd ==
-  Terminal => \A b \in Batches : Accepted(b) /\ Receivable(b) => Len(answers[b]) = 1
+  Terminal => \A b \in Batches :
+     (Accepted(b) /\ (Chan[b] \in {"buf", "unbuf"} \/ (spc = "ret_nil" /\ Chan[b] = "late"))) => Len(answers[b]) = 1
 
 \* C09
 Unanswered == {b \in Batches : Accepted(b) /\ Chan[b] # "nil" /\ answers[b] = <<>>}
